@@ -957,6 +957,8 @@ def make_pack(mode="", inferral=False, symmetry=False, iterative=False, factory=
         exp = [[Rot(mode, 1, False, None, True)], [Rot(mode, 1, True, None, "only")]] + exp
     elif rot == "ne":
         exp = [[Rot(mode, 1, False), RotNE(mode, 2, True)]] + exp
+    elif rot == "ow":  # the rotation and its inverse, both one-way: overlapping cycles of one-way rules
+        exp = [[Rot(mode, 1, False), Rot(mode, 2, False)]] + exp
     elif rot == "perm":  # a rotation and a transposition of three letters: equivalence paths whose bijections do not commute
         exp = [[Rot(mode, 1, True), Rot(mode, 1, True, "bac")]] + exp
     elif rot:
